@@ -4,6 +4,7 @@
 package sync
 
 import (
+	"runtime"
 	"unsafe"
 
 	vs "github.com/ProjectSerenity/firefly/kernel/internal/verifsched"
@@ -14,6 +15,10 @@ import (
 // interpreter, against the real lock word.
 var verifProg *vs.Program
 
+// Not inlinable: the interpreter reaches the lock word through an integer address, which the compiler cannot see; a
+// real call that takes the pointer makes it reload the word afterwards.
+//
+//go:noinline
 func archAcquireSpinlock(state *uint32, attemptsBeforeYielding uint32) {
 	if verifProg == nil {
 		verifProg = vs.ParseAsm(verifSpinlockAsm, "archAcquireSpinlock")
@@ -22,6 +27,7 @@ func archAcquireSpinlock(state *uint32, attemptsBeforeYielding uint32) {
 	*(*uintptr)(unsafe.Pointer(&frame[0])) = uintptr(unsafe.Pointer(state))
 	*(*uint32)(unsafe.Pointer(&frame[8])) = attemptsBeforeYielding
 	verifProg.Run(frame[:], map[string]uintptr{"yieldFn": uintptr(unsafe.Pointer(&yieldFn))})
+	runtime.KeepAlive(state)
 }
 
 // VerifSetYield lets harnesses in other packages (C09) choose the yield function.
